@@ -86,3 +86,59 @@ package query
 //@   ensures restores_the_time_range: result1 == nil ==> result0 != nil && result0.StartTime == i64(pb.StartTime) && result0.EndTime == i64(pb.EndTime)
 //@   ensures restores_direction_and_limits: result1 == nil ==> result0.Ascending == pbool(pb.Ascending) && result0.Limit == i64(pb.Limit) && result0.Offset == i64(pb.Offset) && result0.SLimit == i64(pb.SLimit) && result0.SOffset == i64(pb.SOffset) && result0.MaxSeriesN == i64(pb.MaxSeriesN)
 //@   ensures restores_flags: result1 == nil ==> result0.StripName == pbool(pb.StripName) && result0.Dedupe == pbool(pb.Dedupe) && result0.Ordered == pbool(pb.Ordered)
+
+// ---- C15: a streamed query point carries its value, time, name, tag id and flags ----
+// (one contract per typed copy of the generated code; the auxiliary values are encodeAux / decodeAux above)
+//@ func newTagsID
+//@   assumed
+//@   modifies nothing
+
+//@ func encodeFloatPoint
+//@   props C15
+//@   nosafety
+//@   ensures carries_the_point: result != nil && result.FloatValue != nil && *result.FloatValue == p.Value && i64(result.Time) == p.Time && str(result.Name) == p.Name && pbool(result.Nil) == p.Nil && u64(result.Aggregated) == p.Aggregated
+//@ func decodeFloatPoint
+//@   props C15
+//@   nosafety
+//@   callee_requires_assumed
+//@   ensures restores_the_point: result != nil && (pb.FloatValue != nil ==> result.Value == *pb.FloatValue) && result.Time == i64(pb.Time) && result.Name == str(pb.Name) && result.Nil == pbool(pb.Nil) && result.Aggregated == u64(pb.Aggregated)
+
+//@ func encodeIntegerPoint
+//@   props C15
+//@   nosafety
+//@   ensures carries_the_point: result != nil && result.IntegerValue != nil && i64(result.IntegerValue) == p.Value && i64(result.Time) == p.Time && str(result.Name) == p.Name && pbool(result.Nil) == p.Nil && u64(result.Aggregated) == p.Aggregated
+//@ func decodeIntegerPoint
+//@   props C15
+//@   nosafety
+//@   callee_requires_assumed
+//@   ensures restores_the_point: result != nil && result.Value == i64(pb.IntegerValue) && result.Time == i64(pb.Time) && result.Name == str(pb.Name) && result.Nil == pbool(pb.Nil) && result.Aggregated == u64(pb.Aggregated)
+
+//@ func encodeUnsignedPoint
+//@   props C15
+//@   nosafety
+//@   ensures carries_the_point: result != nil && result.UnsignedValue != nil && u64(result.UnsignedValue) == p.Value && i64(result.Time) == p.Time && str(result.Name) == p.Name && pbool(result.Nil) == p.Nil && u64(result.Aggregated) == p.Aggregated
+//@ func decodeUnsignedPoint
+//@   props C15
+//@   nosafety
+//@   callee_requires_assumed
+//@   ensures restores_the_point: result != nil && result.Value == u64(pb.UnsignedValue) && result.Time == i64(pb.Time) && result.Name == str(pb.Name) && result.Nil == pbool(pb.Nil) && result.Aggregated == u64(pb.Aggregated)
+
+//@ func encodeStringPoint
+//@   props C15
+//@   nosafety
+//@   ensures carries_the_point: result != nil && result.StringValue != nil && str(result.StringValue) == p.Value && i64(result.Time) == p.Time && str(result.Name) == p.Name && pbool(result.Nil) == p.Nil && u64(result.Aggregated) == p.Aggregated
+//@ func decodeStringPoint
+//@   props C15
+//@   nosafety
+//@   callee_requires_assumed
+//@   ensures restores_the_point: result != nil && result.Value == str(pb.StringValue) && result.Time == i64(pb.Time) && result.Name == str(pb.Name) && result.Nil == pbool(pb.Nil) && result.Aggregated == u64(pb.Aggregated)
+
+//@ func encodeBooleanPoint
+//@   props C15
+//@   nosafety
+//@   ensures carries_the_point: result != nil && result.BooleanValue != nil && pbool(result.BooleanValue) == p.Value && i64(result.Time) == p.Time && str(result.Name) == p.Name && pbool(result.Nil) == p.Nil && u64(result.Aggregated) == p.Aggregated
+//@ func decodeBooleanPoint
+//@   props C15
+//@   nosafety
+//@   callee_requires_assumed
+//@   ensures restores_the_point: result != nil && result.Value == pbool(pb.BooleanValue) && result.Time == i64(pb.Time) && result.Name == str(pb.Name) && result.Nil == pbool(pb.Nil) && result.Aggregated == u64(pb.Aggregated)
